@@ -4,10 +4,28 @@ import os
 import sys
 
 sys.path.insert(0, os.path.dirname(os.path.abspath(__file__)))
-from dsim.cli import main  # noqa: E402
+
+if __name__ == "__mp_main__":
+    # spawned child of a real multiprocessing run (anchors): import the tree under test
+    # through the same boot path (source-keyed numba cache) before helpers unpickles
+    from dsim import boot as _boot
+
+    _boot.pin_env()
+    _boot.boot()
 
 if __name__ == "__main__":
-    rc = main()
+    if len(sys.argv) >= 3 and sys.argv[1] == "--anchor":
+        from dsim import boot as _boot
+
+        if _boot.pin_env():
+            os.execve(sys.executable, [sys.executable] + sys.argv, os.environ)
+        from dsim.anchor import run_real
+
+        rc = run_real(sys.argv[2])
+    else:
+        from dsim.cli import main
+
+        rc = main()
     sys.stdout.flush()
     sys.stderr.flush()
     os._exit(rc if isinstance(rc, int) else 0)
